@@ -421,6 +421,9 @@ mod verif_bounded_mdk {
             let n = j.get_pending_welcomes(None).unwrap().len();
             if n != 1 { bad(&scen, format!("{n} pending welcomes are stored, not 1")); }
             if j.get_groups().unwrap().len() != 1 { bad(&scen, format!("{} groups are stored, not 1", j.get_groups().unwrap().len())); }
+            // the same invitation also arrives under a second gift-wrap id (a retry of the inviter's client) before the user answers
+            scen.push_str(" ; the same invitation arrives under a second wrapper id");
+            let w1dup = j.process_welcome(&wid(9), &res.welcome_rumors[0]).unwrap_or_else(|e| bad(&scen, format!("the duplicate is refused: {e:?}")));
             scen.push_str(" ; accept_welcome");
             j.accept_welcome(&w1).unwrap_or_else(|e| bad(&scen, format!("accepting a valid invitation fails: {e:?}")));
             let (gj, ga) = (j.get_group(&g1).unwrap().expect("joined group"), a.get_group(&g1).unwrap().unwrap());
@@ -432,6 +435,19 @@ mod verif_bounded_mdk {
             if gj.self_update_state != mdk_storage_traits::groups::types::SelfUpdateState::Required { bad(&scen, format!("the self-update obligation is {:?}, not Required", gj.self_update_state)); }
             let m = a.create_message(&g1, create_test_rumor(&ak, "hello")).unwrap();
             if !matches!(j.process_message(&m), Ok(crate::messages::MessageProcessingResult::ApplicationMessage(_))) { bad(&scen, "the joiner cannot read the inviter's next message".into()); }
+            // F26 / F28: the duplicate is declined, then the invitation is accepted a second time after the group moved on: g1 stays as it is
+            scen.push_str(" ; alice renames g1 ; the user declines the duplicate copy ; the user accepts the first copy again");
+            let rename = a.update_group_data(&g1, NostrGroupDataUpdate::new().name("g1 renamed".to_string())).unwrap().evolution_event;
+            a.merge_pending_commit(&g1).unwrap();
+            if !matches!(j.process_message(&rename), Ok(crate::messages::MessageProcessingResult::Commit { .. })) { bad(&scen, "the joiner cannot apply the inviter's next commit".into()); }
+            let _ = j.decline_welcome(&w1dup);
+            let _ = j.accept_welcome(&w1);
+            let g = j.get_group(&g1).unwrap().expect("g1");
+            if format!("{:?}", g.state) != "Active" { bad(&scen, format!("g1 is {:?} on the joiner", g.state)); }
+            let mls_epoch = j.load_mls_group(&g1).unwrap().map(|m| m.epoch().as_u64());
+            if mls_epoch != Some(g.epoch) || g.epoch != a.get_group(&g1).unwrap().unwrap().epoch { bad(&scen, format!("the joiner's MLS state is at epoch {mls_epoch:?}, its record at {}, the inviter at {}", g.epoch, a.get_group(&g1).unwrap().unwrap().epoch)); }
+            let m2 = a.create_message(&g1, create_test_rumor(&ak, "after the second accept")).unwrap();
+            if !matches!(j.process_message(&m2), Ok(crate::messages::MessageProcessingResult::ApplicationMessage(_))) { bad(&scen, "the joiner cannot read the inviter's next message any more".into()); }
             let snapshot_g1 = |j: &MDK<S>| { let g = j.get_group(&g1).unwrap().unwrap(); (g.epoch, g.name.clone(), format!("{:?}", g.state), g.nostr_group_id, g.admin_pubkeys.clone(), j.get_members(&g1).unwrap(), j.get_messages(&g1, None).unwrap().len()) };
             let before = snapshot_g1(j);
             // group 2: received and declined
